@@ -55,6 +55,9 @@ P = {
          "Complete enumeration.", "Trusted: R-RAW52 (refs/layouts.rs).", "DESIGN.md 7/C16"),
  "C17": ("exploration", "exhaustive differential sweep AnyLayout / &AnyLayout vs the wrapped layout on 10 x 2 x 124 x 512 x 2 points; change_layout over all 10x10 ordered pairs on real EventDecoder<AnyLayout> and EventDecoder<&AnyLayout>; pairwise distinguishability of the ten tables measured",
          "Complete enumeration; differential, no table.", "None.", "DESIGN.md 7/C17"),
+ "C20": ("other", "exhaustive enumeration of a finite configuration family (120 Keyboard configurations x const + static items, stage constructors, const accessors, a const-evaluated 512-entry predicate table, 58 Send+Sync assertions) in a #![no_std] probe crate built without hooks, judged by rustc against a runtime twin; const-built vs runtime-built objects compared on the exhaustive single-step alphabet",
+         "C20 has no state and no histories: the only thing to enumerate is a finite family of configurations and the judge is the compiler. This is the degenerate end of the model-checking family (configuration enumeration) and is labelled 'other'.",
+         "Trusted: rustc's type/const checker; the configuration list in probe_c20/gen.py.", "DESIGN.md 7/C20"),
 }
 NOT_YET = {}  # id -> reason (filled below for everything not in P)
 
